@@ -362,6 +362,39 @@ Theorem C12_bind_overwrites : forall nt cname r,
     dict_get key (bind_machine nt cname r) = dict_get key nt.
 Proof. exact bind_overwrites. Qed.
 
+(* ---- every decorated function is judged on its own -------------------- *)
+
+(* A [decl] is what the state decorator can see of the function it is handed:
+   its __name__, the parameters inspect.signature reports for IT (following
+   __wrapped__ of a functools.wraps-based decorator, honouring __signature__ of
+   a factory product, the remaining parameters of a functools.partial object),
+   its docstring.  How the function was produced -- and what it shares with
+   functions decorated before it, e.g. the code object of a common wrapper --
+   is not an input of the model.
+
+   A decorated function with a colliding name or a faulty signature makes the
+   class statement raise, whatever the lines above it defined (legal states
+   behind the same wrapper included), whatever earlier classes hold, whatever
+   follows *)
+Theorem C12_faulty_decorated_rejected : forall reserved dicts owner_is_sm pre k d post,
+  In (d_fname d) reserved \/ sig_faulty (d_params d) ->
+  exists e, define_class reserved dicts owner_is_sm (pre ++ (k, SState d) :: post) = Err e.
+Proof. exact faulty_decorated_rejected. Qed.
+
+(* .. with exactly the exception the decorator raises for this function alone,
+   once the lines above it have run through *)
+Theorem C12_decorated_verdict_own : forall reserved dicts owner_is_sm pre ns k d post e,
+  eval_body reserved dicts pre [] = Ok ns -> construct reserved d = Err e ->
+  define_class reserved dicts owner_is_sm (pre ++ (k, SState d) :: post) = Err e.
+Proof. exact decorated_verdict_own. Qed.
+
+(* in an accepted module every decorated function of every class -- first or
+   last, overridden or not -- has a free name and a legal signature *)
+Theorem C12_module_decorated_legal : forall reserved cs ds, define_all reserved cs = Ok ds ->
+  forall c k d, In c cs -> In (k, SState d) (c_body c) ->
+    ~ In (d_fname d) reserved /\ ~ sig_faulty (d_params d).
+Proof. exact module_decorated_legal. Qed.
+
 (* ---- non-vacuity --------------------------------------------------- *)
 
 Definition nvp (n : string) : param := {| p_name := n; p_kind := PosOrKw |}.
@@ -544,6 +577,30 @@ Proof.
   - split; [vm_compute; reflexivity|]. repeat split. eexists. split; [reflexivity|]. vm_compute. split; reflexivity.
 Qed.
 
+(* two functions that differ in their signature only (think of both behind one
+   functools.wraps decorator: same code object).  ok(self, tm) then bad(self,
+   speed): rejected with the ValueError of bad; the other order: the same
+   error; bad in a derived class / in an unrelated machine defined after a class
+   with ok: that class statement raises; ok twice with different legal
+   signatures: two states with their own argument lists *)
+Definition nv_ok := ("ok", SState (nvd "ok" ["self"; "tm"] (Some "fine") (DState true false))).
+Definition nv_bad := ("bad", SState (nvd "bad" ["self"; "speed"] (Some "bad one") (DState false false))).
+
+Example C12_nv_judged_alone :
+  define_all nv_reserved [nv_one [nv_ok; nv_bad]] = Err (0, ESig (ErrInvalidNames ["speed"])) /\
+  define_all nv_reserved [nv_one [nv_bad; nv_ok]] = Err (0, ESig (ErrInvalidNames ["speed"])) /\
+  define_all nv_reserved [nv_one [nv_ok]; {| c_bases := [BClass 0]; c_body := [nv_bad]; c_extra := [] |}]
+    = Err (1, ESig (ErrInvalidNames ["speed"])) /\
+  define_all nv_reserved [nv_one [nv_ok]; nv_one [nv_ok; ("m", SOther); nv_bad]]
+    = Err (1, ESig (ErrInvalidNames ["speed"])) /\
+  construct nv_reserved (nvd "bad" ["self"; "speed"] (Some "bad one") (DState false false))
+    = Err (ESig (ErrInvalidNames ["speed"])) /\
+  (exists ds s1 s2, define_all nv_reserved
+       [nv_one [nv_ok; ("b", SState (nvd "b" ["self"; "state_tm"; "initial_call"] None (DStateCall false false)))]] = Ok ds /\
+     dict_get "ok" (nth 0 ds []) = Some (MState s1) /\ s_args s1 = ["self"; "tm"] /\
+     dict_get "b" (nth 0 ds []) = Some (MState s2) /\ s_args s2 = ["self"; "state_tm"; "initial_call"]).
+Proof. repeat split; try reflexivity. do 3 eexists. vm_compute. repeat split. Qed.
+
 (* the adapter really reorders: declared (self, state_tm, tm) *)
 Example C12_nv_adapter :
   exists args, validate_sig (map nvp ["self"; "state_tm"; "tm"]) = Ok args /\
@@ -585,3 +642,6 @@ Print Assumptions C12_failed_attempt_no_effect.
 Print Assumptions C12_module_names_free.
 Print Assumptions C12_history_module.
 Print Assumptions C12_bind_overwrites.
+Print Assumptions C12_faulty_decorated_rejected.
+Print Assumptions C12_decorated_verdict_own.
+Print Assumptions C12_module_decorated_legal.
